@@ -66,7 +66,7 @@ CONFIGS = [
     # signatures: sign, decorate / obscure / forge, verify (C09)
     cfg("sig_q", [["build"], ["signature"], ["signature", "forgesigned", "elideset", "addassertion"], ["verify"]],
         atoms=("a1",), nreg=1, maxsize=30, maxt=1, inv=("WellFormedInv",), props=("C09Prop",),
-        shapes="ShUpTo(%s, 2) \\cup {e \\in Sh(%s, 5) : IsNode(e)}" % (B1, B1)),
+        shapes="ShUpTo(%s, 2) \\cup {e \\in Sh(%s, 5) : IsNode(e)} \\cup NodeSubjectNodes(%s, 9)" % (B1, B1, B1)),
     # recipients and seal (C10)
     cfg("recipient_q", [["build"], ["recipient_enc"], ["recipient_add", "addassertion", "recipient_dec"], ["recipient_dec"]],
         atoms=("a1",), nreg=1, maxsize=30, maxt=1, inv=("WellFormedInv",), props=("C10Prop",),
@@ -94,7 +94,11 @@ CONFIGS = [
     # totality: every transform on decorated / partially obscured shapes (C16)
     cfg("total_q", [["build"], ["elideset", "compressone"], ["assertions", "compress", "encrypt", "navigate", "wrap", "lookup", "salt", "elideone"]],
         atoms=("a1",), nreg=1, maxsize=14, maxt=1, inv=("WellFormedInv",), props=("C02Prop", "C07Prop"),
-        shapes="Decorated(%s) \\cup NodeSubjectNodes(%s, 9) \\cup {e \\in Sh(%s, 5) : IsNode(e)}" % (B1, B1, B2)),
+        shapes="Decorated(%s) \\cup TwinDecorated(%s) \\cup NodeSubjectNodes(%s, 9) \\cup {e \\in Sh(%s, 5) : IsNode(e)}" % (B1, B2, B1, B2)),
+    # whole-envelope obscuring calls on decorated / twin-decorated / node-subject shapes (C02)
+    cfg("obscure_q3", [["build"], ["elideset", "compress", "encrypt", "elideone"], ["compress", "encrypt", "assertions"]],
+        atoms=("a1",), nreg=1, maxsize=16, maxt=1, props=("C02Prop", "C03Prop", "C07Prop"),
+        shapes="Decorated(%s) \\cup TwinDecorated(%s) \\cup NodeSubjectNodes(%s, 9)" % (B1, B2, B1)),
     # expressions, requests, responses, events (C18)
     cfg("expr_q", [["build"], ["expr_build"], ["malform", "obs_parse", "codec"], ["obs_parse"]],
         atoms=("a1",), nreg=1, maxsize=30, maxt=1, inv=("WellFormedInv",), props=("C18Prop",),
